@@ -25,6 +25,9 @@ pub struct BinCase {
     pub init: Option<Vec<f64>>,
     pub gtol: f64,
     pub max_iter: u64,
+    /// max_iterations of the refit that decides a failed stationarity test (0 = no refit)
+    #[serde(default)]
+    pub retry_max_iter: u64,
     pub order: String,
     pub scale: f64,
 }
@@ -84,7 +87,7 @@ fn typed<C: Ord + Clone + Default + std::fmt::Debug>(case: &BinCase, cls: [C; 2]
     if let Some(init) = &case.init {
         params = params.initial_params(Array1::from(init.clone()));
     }
-    let model = match guarded(|| params.fit(&ds)) {
+    let mut model = match guarded(|| params.fit(&ds)) {
         Ok(Ok(m)) => m,
         Ok(Err(e)) => {
             viols.push(Violation::new("logistic.fit.unexpected_error", format!("fit on an in-domain two-class dataset returned Err({})", e), cj()));
@@ -95,6 +98,40 @@ fn typed<C: Ord + Clone + Default + std::fmt::Debug>(case: &BinCase, cls: [C; 2]
             return out;
         }
     };
+
+    // ---- slow but healthy convergence must not be mistaken for a wrong fixed point: when the first fit
+    //      (max_iter) fails the stationarity test, the verdict is taken from a refit with retry_max_iter ----
+    if case.retry_max_iter > case.max_iter {
+        let m = &model;
+        let pos_is_1 = m.labels().pos.class == cls[1];
+        let yv: Vec<f64> = case.groups.iter().map(|&g| if (g == 1) == pos_is_1 { 1.0 } else { -1.0 }).collect();
+        let mut theta: Vec<f64> = m.params().to_vec();
+        if case.intercept {
+            theta.push(m.intercept());
+        }
+        if theta.len() == d + case.intercept as usize {
+            if let Some(e) = refopt::bin_eval(&case.x, &yv, case.alpha, case.intercept, &theta) {
+                let fgh0 = |t: &[f64]| refopt::bin_eval(&case.x, &yv, case.alpha, case.intercept, t);
+                if norm2(&e.g) > 10.0 * case.gtol {
+                    let own0 = refopt::lm_newton(&fgh0, &vec![0.0; theta.len()], 1e-10 * xmax, 200);
+                    if own0.converged && e.f - own0.f > 1e-8 * own0.f.abs().max(1.0) {
+                        out.tag("binary_refits_with_retry_max_iter");
+                        match guarded(|| params.clone().max_iterations(case.retry_max_iter).fit(&ds)) {
+                            Ok(Ok(m2)) => model = m2,
+                            Ok(Err(e)) => {
+                                viols.push(Violation::new("logistic.fit.unexpected_error", format!("refit with max_iterations {} returned Err({})", case.retry_max_iter, e), cj()));
+                                return out;
+                            }
+                            Err(p) => {
+                                viols.push(Violation::new("logistic.fit.panic", format!("refit panicked: {}", p), cj()));
+                                return out;
+                            }
+                        }
+                    }
+                }
+            }
+        }
+    }
 
     // ---- class set ----
     let labels = model.labels();
@@ -174,8 +211,8 @@ fn typed<C: Ord + Clone + Default + std::fmt::Debug>(case: &BinCase, cls: [C; 2]
             viols.push(Violation::new(
                 "logistic.fit.not_stationary",
                 format!(
-                    "returned w={:?} b={}: own gradient norm of the documented objective {:.3e} > 10 x gradient_tolerance {:.1e} AND objective {:.12} exceeds the own Newton minimum {:.12} (at {:?}) by {:.3e} > {:.1e}",
-                    w, b, gn, case.gtol, at.f, own.f, own.x, gap, gap_tol
+                    "returned w={:?} b={} (max_iterations {}): own gradient norm of the documented objective {:.3e} > 10 x gradient_tolerance {:.1e} AND objective {:.12} exceeds the own Newton minimum {:.12} (at {:?}) by {:.3e} > {:.1e}",
+                    w, b, case.retry_max_iter.max(case.max_iter), gn, case.gtol, at.f, own.f, own.x, gap, gap_tol
                 ),
                 cj(),
             ));
